@@ -27,9 +27,48 @@ def _is_none(e) -> bool:
     return isinstance(e, ast.Constant) and e.value is None
 
 
+def _record_arg(call, fields, name):
+    """The argument of a record construction that becomes the field `name`, else None."""
+    if not fields or name not in fields or any(isinstance(a, ast.Starred) for a in call.args) or any(k.arg is None for k in call.keywords):
+        return None
+    i = fields.index(name)
+    if i < len(call.args):
+        return call.args[i]
+    for k in call.keywords:
+        if k.arg == name:
+            return k.value
+    return None
+
+
+def record_fields(p, module):
+    """call -> the field names (in order) of the NamedTuple / dataclass the call constructs, for classes of the package."""
+    cache: dict = {}
+
+    def of_class(ci):
+        if ci.node is None:
+            return None
+        named = any(unparse(b).split(".")[-1] == "NamedTuple" for b in ci.node.bases)
+        data = any(unparse(d.func if isinstance(d, ast.Call) else d).split(".")[-1] == "dataclass" for d in ci.node.decorator_list)
+        if not (named or data) or any(isinstance(x, ast.FunctionDef) and x.name in ("__init__", "__new__", "__post_init__") for x in ci.node.body):
+            return None
+        return [x.target.id for x in ci.node.body if isinstance(x, ast.AnnAssign) and isinstance(x.target, ast.Name) and "ClassVar" not in unparse(x.annotation)]
+
+    def fields(call):
+        f = call.func
+        if not isinstance(f, ast.Name):
+            return None
+        if f.id not in cache:
+            r = p.resolve_name(module, f.id)
+            cache[f.id] = of_class(r[1]) if r and r[0] == "class" else None
+        return cache[f.id]
+
+    return fields
+
+
 class Locals:
-    def __init__(self, fn_node):
+    def __init__(self, fn_node, fields=None):
         self.node = fn_node
+        self.fields = fields  # call -> [field names] when the call constructs a record (NamedTuple / dataclass), else None
         a = fn_node.args
         self.params = {x.arg for x in a.posonlyargs + a.args + a.kwonlyargs}
         if a.vararg:
@@ -63,7 +102,7 @@ class Locals:
         # locals whose object is changed in place (`x[k] = ..`, `x[k] += ..`, `x.append(..)`): the name stands for the object
         self.mutated: set = set()
         for n in ast.walk(fn_node):
-            if isinstance(n, ast.Subscript) and isinstance(n.ctx, (ast.Store, ast.Del)) and isinstance(n.value, ast.Name):
+            if isinstance(n, (ast.Subscript, ast.Attribute)) and isinstance(n.ctx, (ast.Store, ast.Del)) and isinstance(n.value, ast.Name):
                 self.mutated.add(n.value.id)
             elif isinstance(n, ast.Call) and isinstance(n.func, ast.Attribute) and isinstance(n.func.value, ast.Name) \
                     and n.func.attr in ("append", "extend", "insert", "update", "setdefault", "pop", "clear", "add", "remove", "sort"):
@@ -79,6 +118,47 @@ class Locals:
                 rest = [v for v in vals if not _is_none(v)]
                 if rest:
                     self.defs[nm] = rest
+        self._collected()
+
+    def _collected(self):
+        """`rows = []; ...: rows.append(e)` (the only change ever made to rows) followed by `for r in rows:` — r stands for e: an
+        eager pipeline stage (collect, then place) reads like the single loop it was split from."""
+        appends: dict = {}
+        other: set = set()
+        stores: dict = {}
+        for n in ast.walk(self.node):
+            if isinstance(n, ast.Call) and isinstance(n.func, ast.Attribute) and isinstance(n.func.value, ast.Name):
+                if n.func.attr == "append" and len(n.args) == 1 and not n.keywords:
+                    appends.setdefault(n.func.value.id, []).append(n.args[0])
+                elif n.func.attr in ("extend", "insert", "update", "setdefault", "pop", "clear", "add", "remove", "sort", "reverse"):
+                    other.add(n.func.value.id)
+            elif isinstance(n, (ast.Subscript, ast.Attribute)) and isinstance(n.ctx, (ast.Store, ast.Del)) and isinstance(n.value, ast.Name):
+                other.add(n.value.id)
+            elif isinstance(n, ast.Name) and isinstance(n.ctx, (ast.Store, ast.Del)):
+                stores[n.id] = stores.get(n.id, 0) + 1
+        for n in ast.walk(self.node):
+            if not (isinstance(n, ast.For) and isinstance(n.iter, ast.Name)):
+                continue
+            lst = n.iter.id
+            for _ in range(4):  # through plain aliases (`result = rows`)
+                d = self.defs.get(lst, [])
+                if len(d) == 1 and isinstance(d[0], ast.Name) and lst not in self.params and lst not in self.augs and lst not in self.opaque and stores.get(lst) in (1, 2):
+                    lst = d[0].id
+                else:
+                    break
+            d = self.defs.get(lst, [])
+            empty = len(d) == 1 and ((isinstance(d[0], ast.List) and not d[0].elts) or (isinstance(d[0], ast.Call) and unparse(d[0].func) == "list" and not d[0].args))
+            if not empty or lst in other or lst in self.params or lst in self.augs or lst in self.opaque or len(appends.get(lst, [])) != 1 or stores.get(lst) != 1:
+                continue
+            names = [x.id for x in ast.walk(n.target) if isinstance(x, ast.Name)]
+            if any(stores.get(nm) != 1 or nm in self.params for nm in names):
+                continue
+            before = {k: list(v) for k, v in self.defs.items()}
+            self.opaque -= set(names)
+            self._bind(n.target, appends[lst][0])
+            if any(nm in self.opaque for nm in names):  # could not be bound element-wise
+                self.defs = before
+                self.opaque |= set(names)
 
     def _opaque(self, target):
         for x in ast.walk(target):
@@ -183,6 +263,30 @@ class Locals:
                         return ast.copy_location(lc.expand(d, _seen | {n.id}, _depth + 1), n)
                 return n
 
+            def visit_Attribute(self, n):
+                # `Record(a, b).second` is `b`
+                self.generic_visit(n)
+                if isinstance(n.value, ast.Call) and lc.fields is not None and isinstance(n.ctx, ast.Load):
+                    got = _record_arg(n.value, lc.fields(n.value), n.attr)
+                    if got is not None:
+                        return ast.copy_location(got, n)
+                return n
+
+            def visit_Subscript(self, n):
+                # `(a, b)[1]` / `Record(a, b)[1]` is `b`
+                self.generic_visit(n)
+                if isinstance(n.ctx, ast.Load) and isinstance(n.slice, ast.Constant) and isinstance(n.slice.value, int) and not isinstance(n.slice.value, bool):
+                    i = n.slice.value
+                    if isinstance(n.value, (ast.Tuple, ast.List)) and not any(isinstance(e, ast.Starred) for e in n.value.elts) and -len(n.value.elts) <= i < len(n.value.elts):
+                        return ast.copy_location(n.value.elts[i], n)
+                    if isinstance(n.value, ast.Call) and lc.fields is not None:
+                        fl = lc.fields(n.value)
+                        if fl and -len(fl) <= i < len(fl):
+                            got = _record_arg(n.value, fl, fl[i])
+                            if got is not None:
+                                return ast.copy_location(got, n)
+                return n
+
         return E().visit(copy.deepcopy(expr))
 
     def text(self, expr) -> str:
@@ -190,32 +294,46 @@ class Locals:
 
 
 # ---------------------------------------------------------------------- literal loops
-def _rows(it):
-    """The rows of a literal table an expression enumerates: [[Constant, ...]], or None."""
-    def row(e):
-        if isinstance(e, ast.Constant):
-            return [e]
-        if isinstance(e, (ast.Tuple, ast.List)) and e.elts and all(isinstance(x, ast.Constant) for x in e.elts):
-            return list(e.elts)
-        return None
+def _cellv(e) -> bool:
+    """A table cell that can stand for the loop variable wherever it is used: a constant, a name / attribute chain, a lambda,
+    an attrgetter(..) call."""
+    if isinstance(e, (ast.Constant, ast.Lambda, ast.Name, ast.Attribute)):
+        return True
+    return isinstance(e, ast.Call) and unparse(e.func).split(".")[-1] == "attrgetter" and all(isinstance(a, ast.Constant) for a in e.args) and not e.keywords
 
+
+def _rows(it, resolve=None):
+    """The rows of a literal table an expression enumerates: [[cell, ...]], or None.  `resolve` gives the value a module /
+    class level name is bound to (a hoisted table)."""
+    def look(e):
+        if resolve is not None and isinstance(e, (ast.Name, ast.Attribute)):
+            v = resolve(e)
+            return v if v is not None else e
+        return e
+
+    def row(e):
+        if isinstance(e, (ast.Tuple, ast.List)):
+            return list(e.elts) if e.elts and all(_cellv(x) for x in e.elts) else None
+        return [e] if _cellv(e) else None
+
+    it = look(it)
     if isinstance(it, (ast.Tuple, ast.List, ast.Set)) and it.elts:
         rows = [row(e) for e in it.elts]
         return rows if all(r is not None for r in rows) else None
     if isinstance(it, ast.Dict) and it.keys and all(isinstance(k, ast.Constant) for k in it.keys):
         return [[k] for k in it.keys]
-    if isinstance(it, ast.Call) and isinstance(it.func, ast.Attribute) and not it.args and not it.keywords and isinstance(it.func.value, ast.Dict):
-        d = it.func.value
-        if d.keys and all(isinstance(k, ast.Constant) for k in d.keys):
+    if isinstance(it, ast.Call) and isinstance(it.func, ast.Attribute) and not it.args and not it.keywords:
+        d = look(it.func.value)
+        if isinstance(d, ast.Dict) and d.keys and all(isinstance(k, ast.Constant) for k in d.keys):
             if it.func.attr == "keys":
                 return [[k] for k in d.keys]
-            if all(isinstance(v, ast.Constant) for v in d.values):
+            if all(_cellv(v) for v in d.values):
                 if it.func.attr == "items":
                     return [[k, v] for k, v in zip(d.keys, d.values)]
                 if it.func.attr == "values":
                     return [[v] for v in d.values]
     if isinstance(it, ast.Call) and isinstance(it.func, ast.Name) and it.func.id in ("list", "tuple", "iter") and len(it.args) == 1 and not it.keywords:
-        return _rows(it.args[0])
+        return _rows(it.args[0], resolve)
     return None
 
 
@@ -244,7 +362,7 @@ def _own_jumps(body) -> bool:
 
 
 class _Fold(ast.NodeTransformer):
-    """getattr(x, "name") / getattr(x, "name", <constant>) -> x.name"""
+    """getattr(x, "name") / getattr(x, "name", <constant>) / attrgetter("name")(x) -> x.name;  (lambda a: e)(x) -> e[a := x]"""
 
     def visit_Call(self, n):
         self.generic_visit(n)
@@ -252,10 +370,28 @@ class _Fold(ast.NodeTransformer):
                 and isinstance(n.args[1], ast.Constant) and isinstance(n.args[1].value, str) and n.args[1].value.isidentifier() \
                 and (len(n.args) == 2 or isinstance(n.args[2], ast.Constant)):
             return ast.copy_location(ast.Attribute(value=n.args[0], attr=n.args[1].value, ctx=ast.Load()), n)
+        f = n.func
+        if isinstance(f, ast.Call) and unparse(f.func).split(".")[-1] == "attrgetter" and len(f.args) == 1 and not f.keywords and len(n.args) == 1 and not n.keywords \
+                and isinstance(f.args[0], ast.Constant) and isinstance(f.args[0].value, str) and f.args[0].value.isidentifier():
+            return ast.copy_location(ast.Attribute(value=n.args[0], attr=f.args[0].value, ctx=ast.Load()), n)
+        if isinstance(f, ast.Lambda) and not n.keywords and not any(isinstance(a, ast.Starred) for a in n.args):
+            a = f.args
+            if not (a.vararg or a.kwarg or a.kwonlyargs or a.defaults or a.posonlyargs) and len(a.args) == len(n.args) \
+                    and all(isinstance(x, (ast.Name, ast.Attribute, ast.Constant)) for x in n.args):
+                sub = {p.arg: x for p, x in zip(a.args, n.args)}
+
+                class S(ast.NodeTransformer):
+                    def visit_Name(self, m):
+                        return ast.copy_location(copy.deepcopy(sub[m.id]), m) if m.id in sub and isinstance(m.ctx, ast.Load) else m
+
+                    def visit_Lambda(self, m):
+                        return m  # an inner lambda may re-bind the name
+
+                return ast.copy_location(S().visit(copy.deepcopy(f.body)), n)
         return n
 
 
-def unrolled(fn_node):
+def unrolled(fn_node, resolve=None):
     """Copy of the function with loops over literal tables unrolled and constant getattr folded."""
     node = copy.deepcopy(fn_node)
     counter = [0]
@@ -264,7 +400,7 @@ def unrolled(fn_node):
         return [m.id for m in ast.walk(x) if isinstance(m, ast.Name) and (ctx is None or isinstance(m.ctx, ctx))]
 
     def unroll(loop):
-        rows = _rows(loop.iter)
+        rows = _rows(loop.iter, resolve)
         if rows is None or loop.orelse or _own_jumps(loop.body):
             return None
         tg = loop.target
@@ -322,29 +458,31 @@ def unrolled(fn_node):
 
 
 # ---------------------------------------------------------------------- iteration
-def iterates(expr, coll_text: str, lc: Locals, _depth=0) -> bool:
-    """`expr` yields the elements of the collection `coll_text` (each once): the collection itself, an alias, list()/tuple()/iter()/
-    reversed-free wrappers, a comprehension or filter() that only drops elements."""
+def iterates(expr, coll_text: str, lc: Locals, _depth=0, any_order=False) -> bool:
+    """`expr` yields the elements of the collection `coll_text` (each at most once, all of them unless a filter drops some): the
+    collection itself, an alias, list() / tuple() / iter(), a comprehension / filter() / filterfalse() that only drops elements;
+    with any_order also reversed() / sorted()."""
     if _depth > 6 or expr is None:
         return False
     if unparse(expr) == coll_text or lc.text(expr) == coll_text:
         return True
     e = lc.expand(expr)
     if isinstance(e, ast.Name) and lc.value_of(e.id) is not None:
-        return iterates(lc.value_of(e.id), coll_text, lc, _depth + 1)
-    if isinstance(e, ast.Call) and isinstance(e.func, ast.Name) and not e.keywords:
-        if e.func.id in ("list", "tuple", "iter") and len(e.args) == 1:
-            return iterates(e.args[0], coll_text, lc, _depth + 1)
-        if e.func.id == "filter" and len(e.args) == 2:
-            return iterates(e.args[1], coll_text, lc, _depth + 1)
+        return iterates(lc.value_of(e.id), coll_text, lc, _depth + 1, any_order)
+    if isinstance(e, ast.Call):
+        fname = unparse(e.func).split(".")[-1]
+        if fname in ("list", "tuple", "iter") + (("reversed", "sorted") if any_order else ()) and len(e.args) == 1 and (not e.keywords or fname == "sorted"):
+            return iterates(e.args[0], coll_text, lc, _depth + 1, any_order)
+        if fname in ("filter", "filterfalse") and len(e.args) == 2 and not e.keywords:
+            return iterates(e.args[1], coll_text, lc, _depth + 1, any_order)
     if isinstance(e, (ast.ListComp, ast.GeneratorExp)) and len(e.generators) == 1:
         g = e.generators[0]
         if isinstance(g.target, ast.Name) and isinstance(e.elt, ast.Name) and e.elt.id == g.target.id:
-            return iterates(g.iter, coll_text, lc, _depth + 1)
+            return iterates(g.iter, coll_text, lc, _depth + 1, any_order)
     return False
 
 
-def element_vars(fn_node, coll_text: str, lc: Locals) -> dict:
+def element_vars(fn_node, coll_text: str, lc: Locals, any_order=False) -> dict:
     """name -> the loop / comprehension node binding it to the elements of the collection, for `for x in coll`,
     `for i, x in enumerate(coll)`."""
     out = {}
@@ -355,7 +493,7 @@ def element_vars(fn_node, coll_text: str, lc: Locals) -> dict:
         e = lc.expand(it)
         if isinstance(e, ast.Call) and isinstance(e.func, ast.Name) and e.func.id == "enumerate" and e.args and isinstance(tg, (ast.Tuple, ast.List)) and len(tg.elts) == 2:
             it, tg = e.args[0], tg.elts[1]
-        if isinstance(tg, ast.Name) and iterates(it, coll_text, lc):
+        if isinstance(tg, ast.Name) and iterates(it, coll_text, lc, 0, any_order):
             out[tg.id] = n
     return out
 
@@ -387,39 +525,246 @@ def enclosing(fn_node, target):
     return path[1:] if path and path[0][0] is fn_node else path
 
 
-def called_helpers(p, fn, depth: int = 2) -> list:
-    """Private helpers (`cls._h(..)`, `self._h(..)`, `Class._h(..)`, module-level `_h(..)`) a function calls, transitively:
-    the places a statement may have been moved to by a helper extraction."""
+# ---------------------------------------------------------------------- calls: where a statement may have been moved to
+def resolve_call(p, fn, call, recv_cls=None) -> list:
+    """[(FuncInfo, class of the receiver inside it)] — the functions of the package a call may run.  `fn` is the function holding
+    the call and `recv_cls` the class of its own receiver (the anchor's class when `fn` was reached from an anchor through
+    super() / cls / self), so that `cls.hook()` inside an inherited method dispatches to the override the anchor's class sees."""
+    g = call.func
+    name = g.attr if isinstance(g, ast.Attribute) else getattr(g, "id", None)
+    if not name or name.startswith("__"):
+        return []
+    out = []
+    if isinstance(g, ast.Attribute):
+        v = g.value
+        start = recv_cls if recv_cls is not None else fn.cls
+        if isinstance(v, ast.Call) and isinstance(v.func, ast.Name) and v.func.id == "super" and not v.args and fn.cls is not None and start is not None:
+            mro = [c for c in start.mro if not isinstance(c, str)]
+            after = mro[mro.index(fn.cls) + 1:] if fn.cls in mro else []
+            for c in after:
+                m = c.own(name)
+                if m is not None:
+                    if m[0] == "method":
+                        out.append((m[1], start))
+                    break
+        elif isinstance(v, ast.Name) and fn.cls is not None and v.id in ("self", "cls", fn.self_name or ""):
+            m = start.lookup(name)
+            if m and m[1] == "method":
+                out.append((m[2], start))
+            for sub in p.subclasses(start, strict=True):
+                o = sub.own(name)
+                if o is not None and o[0] == "method":
+                    out.append((o[1], sub))
+        elif isinstance(v, ast.Name):
+            r = p.resolve_name(fn.module, v.id)
+            if r and r[0] == "class":
+                m = r[1].lookup(name)
+                if m and m[1] == "method":
+                    out.append((m[2], r[1]))
+    elif isinstance(g, ast.Name):
+        r = p.resolve_name(fn.module, name)
+        if r and r[0] == "func":
+            out.append((r[1], None))
+    return [(f, c) for f, c in out if f.module.in_scope]
+
+
+def reachable(ctx, fn, recv_cls=None, depth: int = 3) -> list:
+    """Normalised views of the functions reached from `fn` by calls its own view could not expand (hooks overridden in a
+    subclass, super(), generators, ...), transitively, with the receiver class each is reached with."""
     out, seen = [], {id(fn.node)}
 
-    def visit(f, level):
-        for c in ast.walk(f.node):
-            if not isinstance(c, ast.Call):
-                continue
-            g = c.func
-            name = g.attr if isinstance(g, ast.Attribute) else getattr(g, "id", None)
-            if not name or not name.startswith("_") or name.startswith("__"):
-                continue
-            target = None
-            if isinstance(g, ast.Attribute) and isinstance(g.value, ast.Name):
-                owner = None
-                if f.cls is not None and g.value.id in ("self", "cls", f.self_name or ""):
-                    owner = f.cls
-                else:
-                    r = p.resolve_name(f.module, g.value.id)
-                    owner = r[1] if r and r[0] == "class" else None
-                m = owner.lookup(name) if owner is not None else None
-                if m and m[1] == "method":
-                    target = m[2]
-            elif isinstance(g, ast.Name):
-                r = p.resolve_name(f.module, name)
-                if r and r[0] == "func":
-                    target = r[1]
-            if target is not None and id(target.node) not in seen:
-                seen.add(id(target.node))
-                out.append(target)
-                if level < depth:
-                    visit(target, level + 1)
+    def visit(view, recv, level):
+        for c in ast.walk(view.node):
+            if isinstance(c, ast.Call):
+                # the call itself, and functions handed over as arguments (`map(cls._one, items)`)
+                refs = [ast.Call(func=a, args=[], keywords=[]) for a in list(c.args) + [k.value for k in c.keywords] if isinstance(a, (ast.Name, ast.Attribute))]
+                for target, r in [x for cc in [c] + refs for x in resolve_call(ctx.p, view, cc, recv)]:
+                    if id(target.node) in seen:
+                        continue
+                    seen.add(id(target.node))
+                    v = ctx.view(target)
+                    out.append((v, r))
+                    if level < depth:
+                        visit(v, r, level + 1)
 
-    visit(fn, 0)
+    visit(ctx.view(fn), recv_cls if recv_cls is not None else fn.cls, 0)
     return out
+
+
+# ---------------------------------------------------------------------- generators consumed by a for loop
+def _own_yields(fn_node):
+    out = []
+
+    def rec(n):
+        for c in ast.iter_child_nodes(n):
+            if isinstance(c, (ast.FunctionDef, ast.AsyncFunctionDef, ast.Lambda, ast.ClassDef)):
+                continue
+            if isinstance(c, (ast.Yield, ast.YieldFrom)):
+                out.append(c)
+            rec(c)
+
+    rec(fn_node)
+    return out
+
+
+def with_generators_inlined(ctx, fn, node, recv_cls=None):
+    """`for t in gen(args): BODY` where gen is a generator function of the package is the body of gen with every `yield e`
+    replaced by `t = e; BODY` (the generator is resumed exactly where the loop body ends, so the interleaving is the same).
+    Done on a copy; loops whose generator has a return, a `yield` used as an expression or a `yield from`, or whose body
+    breaks out, are left alone."""
+    node = copy.deepcopy(node)
+    counter = [0]
+
+    def bound(n):
+        out = set()
+        a = getattr(n, "args", None)
+        if isinstance(a, ast.arguments):
+            out |= {x.arg for x in a.posonlyargs + a.args + a.kwonlyargs}
+        for x in ast.walk(n):
+            if isinstance(x, ast.Name) and isinstance(x.ctx, (ast.Store, ast.Del)):
+                out.add(x.id)
+        return out
+
+    def expand(loop):
+        if not isinstance(loop.iter, ast.Call) or loop.orelse:
+            return None
+        call = loop.iter
+        targets = resolve_call(ctx.p, fn, call, recv_cls)
+        if len(targets) != 1:
+            return None
+        gen = targets[0][0]
+        ys = _own_yields(gen.node)
+        if not ys or any(isinstance(y, ast.YieldFrom) for y in ys):
+            return None
+        gview = ctx.view(gen)
+        gnode = copy.deepcopy(gview.node)
+        ystmts = [s for s in ast.walk(gnode) if isinstance(s, ast.Expr) and isinstance(s.value, ast.Yield)]
+        if len(ystmts) != len(_own_yields(gnode)) or any(isinstance(x, ast.Return) for x in ast.walk(gnode)):
+            return None
+        a = gnode.args
+        if a.vararg or a.kwarg or any(isinstance(x, ast.Starred) for x in call.args) or any(k.arg is None for k in call.keywords):
+            return None
+        # break in the loop body would have to stop the generator: not expressible; continue ends the body only
+        def jumps(stmts, kind):
+            for st in stmts:
+                if isinstance(st, kind):
+                    return True
+                if isinstance(st, (ast.For, ast.AsyncFor, ast.While, ast.FunctionDef, ast.AsyncFunctionDef, ast.ClassDef)):
+                    continue
+                for fld in ("body", "orelse", "finalbody"):
+                    blk = getattr(st, fld, None)
+                    if isinstance(blk, list) and blk and isinstance(blk[0], ast.stmt) and jumps(blk, kind):
+                        return True
+                for h in getattr(st, "handlers", []) or []:
+                    if jumps(h.body, kind):
+                        return True
+            return False
+
+        if jumps(loop.body, ast.Break):
+            return None
+        params = [x.arg for x in a.posonlyargs + a.args]
+        defaults = dict(zip(params[len(params) - len(a.defaults):], a.defaults))
+        for k, d in zip(a.kwonlyargs, a.kw_defaults):
+            params.append(k.arg)
+            if d is not None:
+                defaults[k.arg] = d
+        args = list(call.args)
+        if gen.kind in ("method", "classmethod") and isinstance(call.func, ast.Attribute):
+            args = [call.func.value] + args
+        binding = dict(zip(params, args))
+        for k in call.keywords:
+            binding[k.arg] = k.value
+        for prm in params:
+            if prm not in binding:
+                if prm not in defaults:
+                    return None
+                binding[prm] = defaults[prm]
+        counter[0] += 1
+        taken = bound(node)
+        ren = {nm: f"{nm}__g{counter[0]}" for nm in bound(gnode) if nm in taken and not (isinstance(binding.get(nm), ast.Name) and binding[nm].id == nm)}
+
+        class Ren(ast.NodeTransformer):
+            def visit_Name(self, n):
+                return ast.copy_location(ast.Name(id=ren[n.id], ctx=n.ctx), n) if n.id in ren else n
+
+        body = [Ren().visit(s) for s in gnode.body if not (isinstance(s, ast.Expr) and isinstance(s.value, ast.Constant) and isinstance(s.value.value, str))]
+        pre = []
+        for prm in params:
+            tgt = ren.get(prm, prm)
+            if isinstance(binding[prm], ast.Name) and binding[prm].id == tgt:
+                continue
+            pre.append(ast.copy_location(ast.Assign(targets=[ast.Name(id=tgt, ctx=ast.Store())], value=copy.deepcopy(binding[prm]), lineno=loop.lineno), loop))
+        consumer = loop.body
+        if jumps(consumer, ast.Continue):
+            once = ast.For(target=ast.Name(id=f"_once__g{counter[0]}", ctx=ast.Store()), iter=ast.Tuple(elts=[ast.Constant(value=None)], ctx=ast.Load()),
+                           body=consumer, orelse=[], lineno=loop.lineno)
+            consumer = [ast.copy_location(once, loop)]
+
+        def replace(stmts):
+            out = []
+            for st in stmts:
+                if isinstance(st, ast.Expr) and isinstance(st.value, ast.Yield):
+                    val = st.value.value if st.value.value is not None else ast.Constant(value=None)
+                    out.append(ast.copy_location(ast.Assign(targets=[copy.deepcopy(loop.target)], value=val, lineno=st.lineno), st))
+                    out += copy.deepcopy(consumer)
+                    continue
+                for fld in ("body", "orelse", "finalbody"):
+                    blk = getattr(st, fld, None)
+                    if isinstance(blk, list) and blk and isinstance(blk[0], ast.stmt):
+                        setattr(st, fld, replace(blk))
+                for h in getattr(st, "handlers", []) or []:
+                    h.body = replace(h.body)
+                out.append(st)
+            return out
+
+        return pre + replace(body)
+
+    def walk_block(stmts):
+        out = []
+        for s in stmts:
+            for fld in ("body", "orelse", "finalbody"):
+                blk = getattr(s, fld, None)
+                if isinstance(blk, list) and blk and isinstance(blk[0], ast.stmt):
+                    setattr(s, fld, walk_block(blk))
+            for h in getattr(s, "handlers", []) or []:
+                h.body = walk_block(h.body)
+            if isinstance(s, ast.For):
+                rep = expand(s)
+                if rep is not None:
+                    out += rep
+                    continue
+            out.append(s)
+        return out
+
+    node.body = walk_block(node.body)
+    ast.fix_missing_locations(node)
+    return node
+
+
+def static_value(p, fn, bound=()):
+    """expr -> the expression a module-level name / a class attribute (`cls.X`, `self.X`, `Class.X`) is bound to, else None."""
+    def value(e):
+        if isinstance(e, ast.Name) and e.id not in bound:
+            r = p.resolve_name(fn.module, e.id)
+            if r and r[0] == "assign":
+                return r[1][1]
+        elif isinstance(e, ast.Attribute) and isinstance(e.value, ast.Name) and e.value.id not in bound:
+            owner = fn.cls if fn.cls is not None and e.value.id in ("self", "cls", fn.self_name or "") else None
+            if owner is None:
+                r = p.resolve_name(fn.module, e.value.id)
+                owner = r[1] if r and r[0] == "class" else None
+            for c in (owner.mro if owner is not None else []):
+                if not isinstance(c, str) and e.attr in c.class_assigns:
+                    return c.class_assigns[e.attr][0]
+        return None
+
+    return value
+
+
+def prepared(ctx, fn, recv_cls=None):
+    """(node, Locals) of a function's normalised view, with consumed generators inlined, literal loops unrolled and records
+    seen through."""
+    node = with_generators_inlined(ctx, fn, fn.node, recv_cls)
+    local = {x.id for x in ast.walk(node) if isinstance(x, ast.Name) and isinstance(x.ctx, (ast.Store, ast.Del))} - {"self", "cls"}
+    node = unrolled(node, static_value(ctx.p, fn, local))
+    return node, Locals(node, record_fields(ctx.p, fn.module))
